@@ -186,6 +186,7 @@ def suite_antimeridian(ctx):
             k_ = r.randrange(3, n)
             lon[k_] = lat[k_] = np.nan
         lon2, lat2 = lon.reshape(1, n), lat.reshape(1, n)
+        lon_all = lon.copy()
         fin = np.isfinite(lon) & np.isfinite(lat)
         lon, lat = lon[fin], lat[fin]
         for amode in ("modify_extents", "modify_crs", "global_extents"):
@@ -234,7 +235,7 @@ def suite_antimeridian(ctx):
                     ctx.fail("DynamicAreaDefinition.freeze(antimeridian_mode)", "; ".join(probs), inp, {"extent": ext, "shape": [area.height, area.width]},
                              tags={"amode": amode, "mode": mode}, size=n)
                 if ctx.M and amode != "global_extents":
-                    rep = ctx.M.ask("anti", 180 if amode == "modify_crs" else 0, [Fraction(float(v)) for v in lon]).split()
+                    rep = ctx.M.ask("anti", 180 if amode == "modify_crs" else 0, ["nan" if np.isnan(v) else Fraction(float(v)) for v in lon_all]).split()
                     # corner centres from the model -> through the model's domain computation
                     xmin, xmax = Fraction(rep[0]), Fraction(rep[1])
                     ymin, ymax = Fraction(float(lat.min())), Fraction(float(lat.max()))
